@@ -41,6 +41,7 @@ def shard(ctx: Ctx) -> None:
     sweep.high_water_sweep(ctx, PROP)
     sweep.deadline_sweep(ctx, PROP)
     sweep.keepalive_values_sweep(ctx, PROP)
+    sweep.hello_content_sweep(ctx, PROP)
     sweep.abandoned_disconnect_sweep(ctx, PROP)
     sweep.reconnect_in_on_stop_sweep(ctx, PROP)
     if ctx.thorough:
